@@ -20,6 +20,8 @@ echo "## build with mutant:"; (cd $WT/client && go build ./... && cd $WT/server 
 echo "## demo WITH mutant (must fail):"
 (cd $WT/$demo_dir && timeout 300 go test -vet=off -count=1 -run 'Mutant|Demo|Seeded|C[0-9][0-9]' . 2>&1 | V 6)
 rm -f $WT/$demo_dir/zz_mutant_demo_test.go
+# (a demonstration that imports something new makes go add lines to go.mod / go.sum under -mod=mod)
+git -C $WT checkout -q -- server/go.mod server/go.sum client/go.mod client/go.sum 2>/dev/null
 echo "## existing client tests with mutant (must be all ok):"
 (cd $WT/client && timeout 600 go test -vet=off -count=1 ./... 2>&1 | grep -a "^ok\|^FAIL\|^--- FAIL" | grep -v "^ok" ; echo "(end of non-ok lines)")
 for P in "$@"; do
